@@ -34,6 +34,7 @@ VARIANTS = {
     'fuzz':        dict(cflags=SAN + ['-fsanitize=fuzzer-no-link'], nopool=False),
     'fuzz-nopool': dict(cflags=SAN + ['-fsanitize=fuzzer-no-link'], nopool=True),
     'plain':       dict(cflags=[], nopool=False),
+    'plain-O0':    dict(cflags=['-O0'], nopool=False),      # the project's own CMake build sets no optimisation level: largest stack frames
     'cov':         dict(cflags=['-fsanitize-coverage=trace-pc-guard'], nopool=False),
     'tsan-nopool': dict(cflags=['-fsanitize=thread'], nopool=True),
 }
@@ -163,7 +164,7 @@ def lib(variant, jobs=None):
         if os.path.exists(a):
             os.unlink(a)
         _run(['ar', 'rcs', a] + objs, variant + ':ar')
-        if variant in ('plain', 'asan'):
+        if variant in ('plain', 'plain-O0', 'asan'):
             _run(['clang'] + variant_flags(variant) + ['-I', srcd, '-I', os.path.join(vdir, 'gen'),
                   os.path.join(srcd, 'main.c'), os.path.join(srcd, 'argtable3.c'), a, '-lm',
                   '-o', os.path.join(vdir, 'multimarkdown')], variant + ':cli')
